@@ -593,7 +593,7 @@ func proxyCallGuards(c *Ctx) {
 			continue
 		}
 		key := fi.Key
-		if key == "disk.(*diskCache).containsWorker" {
+		if isQueueWorker(c, fi, 0) {
 			n++
 			R.OK("R18d", c.Cfg+key+":proxy-call-guarded", c.P.Pos(fi.Decl.Pos()), "the queue worker asks the backend only about requests the sender put on the queue under the size guard (R10b)")
 			continue
@@ -621,4 +621,47 @@ func proxyCallGuards(c *Ctx) {
 		}
 	}
 	R.Check(n >= 3, "R18d", c.Cfg+"proxy-call-sites", "", "the backend Get / Contains call sites of cache/disk were analysed", fmt.Sprintf("found %d", n))
+}
+
+// isQueueWorker: fi drains the backend-check queue (it ranges over / receives from the containsQueue
+// field), or is only ever called from such a function (a helper split off the worker).
+func isQueueWorker(c *Ctx, fi *FuncInfo, depth int) bool {
+	info := fi.Pkg.TypesInfo
+	drains := false
+	ast.Inspect(fi.Decl.Body, func(n ast.Node) bool {
+		switch n := n.(type) {
+		case *ast.RangeStmt:
+			if sel, ok := ast.Unparen(n.X).(*ast.SelectorExpr); ok && fieldOf(info, sel) == "disk.diskCache.containsQueue" {
+				drains = true
+			}
+		case *ast.UnaryExpr:
+			if n.Op == token.ARROW {
+				if sel, ok := ast.Unparen(n.X).(*ast.SelectorExpr); ok && fieldOf(info, sel) == "disk.diskCache.containsQueue" {
+					drains = true
+				}
+			}
+		}
+		return true
+	})
+	if drains {
+		return true
+	}
+	if depth > 2 {
+		return false
+	}
+	callers := 0
+	for _, g := range c.P.FuncsInPkg("/cache/disk") {
+		if g.Decl.Body == nil || g == fi || strings.HasSuffix(c.P.Fset.Position(g.Decl.Pos()).Filename, "_test.go") {
+			continue
+		}
+		for _, call := range callsIn(g.Decl.Body, true) {
+			if calleeKey(g.Pkg.TypesInfo, call) == fi.Key {
+				callers++
+				if !isQueueWorker(c, g, depth+1) {
+					return false
+				}
+			}
+		}
+	}
+	return callers > 0
 }
